@@ -91,7 +91,7 @@ def readerExpected (msgFin ioErr : Bool) (op : Nat) : Res :=
 
 def envMsgRead (frameDone fin flate client ioErr big : Bool) (op : Nat) : Env :=
   { b := fun n => if n = "fin" then some fin else if n = "flate" then some flate else if n = "client" then some client
-      else if n = "err!=nil" then some ioErr else if n = "int64(len(p))>payloadLength" then some big else none,
+      else if n = "err!=nil" then some ioErr else if n = "payloadLength<int64(len(p))" then some big else none,
     i := fun n => if n = "h.opcode" then some (op : Int) else if n = "payloadLength" then some (if frameDone then 0 else 1) else none,
     fn := fun _ => none }
 
@@ -106,7 +106,7 @@ def msgReadExpected (fin flate : Bool) (op : Nat) : Res :=
 def envMsgWrite (lockErr closed flateNeg flateOn big : Bool) (op : Nat) : Env :=
   { b := fun n => if n = "err!=nil" then some lockErr else if n = "closed" then some closed
       else if n = "flate()" then some flateNeg else if n = "flate" then some flateOn
-      else if n = "len(p)>=flateThreshold" then some big else none,
+      else if n = "len(p)<flateThreshold" then some (!big) else none,
     i := fun n => if n = "opcode" then some (op : Int) else none,
     fn := fun _ => none }
 
